@@ -60,6 +60,9 @@ func genXMLElem(t *Tape, b *strings.Builder, o XMLOpts, depth int) {
 		if strings.HasPrefix(v, "<![CDATA[") {
 			v = "cd"
 		}
+		if t.Draw(10) == 9 {
+			v = "" // an attribute without content
+		}
 		v = strings.ReplaceAll(v, "\n", " ")
 		b.WriteString(" " + an + "=" + q + v + q)
 	}
